@@ -87,8 +87,9 @@ example : setHint (2 ^ 48) 0 = none := by decide
 
 /-! ### (b) justice witnesses -/
 
-theorem csvOk_one (l : Nat) (t : Bool) :
-    csvOk { version := 2, sequence := 1, lockTime := l, tapscript := t } 1 = true := by
+theorem csvOk_one (l : Nat) (t ag : Bool) (bh bt ia : Nat) :
+    csvOk { version := 2, sequence := 1, lockTime := l, tapscript := t, aggregated := ag,
+            blockHeight := bh, blockTime := bt, inputAge := ia } 1 = true := by
   simp [csvOk, seqDisable, seqTypeFlag, seqMask]
 
 /-- **justice_witness_valid.**  For every non-taproot channel type, victim
@@ -113,7 +114,7 @@ theorem justice_witness_valid (r : Revoked) (k : OutKind) (cltv : Nat) (payHash 
       senderHTLC, receiverHTLC, witRevoke, witP2wkh, witHtlcRevoke,
       runOps, step, exec, skip, opIfE, opElseE, opEndIfE, opDup, opSwap, opDrop, opSize, opIfDup,
       opEqual, opEqualVerify, opHash160, opCheckSig, opCheckSigVerify, opCsv, opCltv,
-      ifArg, pk, n, sigCheck, accepts, truthy, csvOk_one]
+      ifArg, pk, n, sigCheck, sigOk, sigHashDefined, sigCommits, sigHashAll, accepts, truthy, csvOk_one]
 
 /-- **The exception is real**: on a leased channel whose initiator is the
     victim, with a lease expiry in the future of "locktime 0", the breach
@@ -134,39 +135,59 @@ theorem justice_lease_to_remote_invalid (r : Revoked) (cltv : Nat) (payHash : It
     simp [Revoked.justiceValid, Revoked.ctx, Revoked.sequence, Revoked.script, Revoked.witness,
       Revoked.signDesc, SignDesc.signer, Revoked.localDelay, Revoked.toRemoteKey,
       run, leaseToRemoteConfirmed, runOps, step, exec, opCheckSigVerify, opCltv,
-      pk, n, sigCheck, accepts, hc]
+      pk, n, sigCheck, sigOk, sigHashDefined, sigCommits, sigHashAll, accepts, hc]
 
-/-- **justice_witness_valid, simple-taproot channels** (staging and final
-    scripts): the revocation leaf of to_local and the CSV-1 leaf of the own
-    to_remote output accept the single Schnorr signature under the key the sign
-    descriptor names; HTLC and second-level outputs are key-path spends whose
-    internal key is exactly the (double-tweaked) revocation key the descriptor
-    signs with.  (Control block / tap tweak arithmetic: real engine only.) -/
-theorem justice_taproot_valid (r : Revoked) (k : OutKind) (ht : r.ct.taproot = true) :
+/-- **justice_witness_valid, simple-taproot channels, script-path spends only**
+    (staging and final scripts): the revocation leaf of to_local and the CSV-1
+    leaf of the own to_remote output accept the single Schnorr signature
+    (SIGHASH_DEFAULT) under the key the sign descriptor names, under tapscript
+    rules.  The HTLC and second-level outputs are KEY-PATH spends: they, the
+    control block and the tap tweak are outside the symbolic model and are
+    checked by the real engine only. -/
+theorem justice_taproot_script_path_valid (r : Revoked) (k : OutKind)
+    (ht : r.ct.taproot = true) (hk : k = .toLocal ∨ k = .toRemote) :
     r.tapJusticeValid k = true := by
   obtain ⟨⟨tweakless, anchors, lease, taproot, tfinal⟩, victim, vinit, csv, lexp⟩ := r
   simp only at ht
   subst ht
-  cases k <;> cases tweakless <;> cases tfinal <;>
+  rcases hk with rfl | rfl <;> cases tweakless <;> cases tfinal <;>
     simp [Revoked.tapJusticeValid, Revoked.tapScript, Revoked.tapWitness, Revoked.tapCtx,
       Revoked.sequence, Revoked.signDesc, SignDesc.signer, Revoked.revocationKey,
       Revoked.toLocalKey, Revoked.toRemoteKey, Revoked.cheater, tapRevokeLeaf, tapDelayLeaf,
       run, runOps, step, exec, opDrop, opCheckSig, opCheckSigVerify, opCsv, pk, n, sigCheck,
-      accepts, truthy, csvOk_one]
+      sigOk, sigHashDefined, sigCommits, sigHashDefault, accepts, truthy, csvOk_one]
+
+/-- The sighash flag matters: the revocation witness is accepted exactly when
+    the flag is one the engine defines (SIGHASH_DEFAULT = 0 only under tapscript). -/
+theorem revoke_sighash_must_be_defined (c : Ctx) (rev delay : Key) (csv ht : Nat) :
+    run c (delayOrRevoke rev delay csv) (witRevoke (.sig rev ht .final))
+      = sigHashDefined c.tapscript ht := by
+  cases h : sigHashDefined c.tapscript ht <;>
+    simp [run, delayOrRevoke, witRevoke, runOps, step, exec, skip, opIfE, opElseE, opEndIfE,
+      opCheckSig, ifArg, pk, n, sigCheck, sigOk, sigCommits, accepts, truthy, h]
+
+/-- The justice transaction (locktime 0, sequence 0 or 1) is final in any block
+    once the revoked commitment has one confirmation. -/
+theorem justice_tx_includable (r : Revoked) (k : OutKind) (h a : Nat) (ha : 1 ≤ a) :
+    includable { r.ctx k with blockHeight := h, inputAge := a } = true := by
+  obtain ⟨⟨tweakless, anchors, lease, taproot, tfinal⟩, victim, vinit, csv, lexp⟩ := r
+  cases k <;> cases anchors <;> cases lease <;> cases vinit <;> cases taproot <;>
+    simp [includable, absFinal, relFinal, Revoked.ctx, Revoked.sequence, Revoked.localDelay,
+      seqDisable, seqTypeFlag, seqMask] <;> omega
 
 /-- The tweak named by the sign descriptor matters: a signature under any key
     other than the (double-tweaked) revocation key does not satisfy the
     revocation branch of the to-local / second-level script. -/
-theorem revoke_needs_revocation_key (c : Ctx) (rev delay k' : Key) (csv ht : Nat) (f : Bool)
+theorem revoke_needs_revocation_key (c : Ctx) (rev delay k' : Key) (csv ht : Nat) (o : SigOver)
     (h : k' ≠ rev) :
-    run c (delayOrRevoke rev delay csv) (witRevoke (.sig k' ht f)) = false := by
+    run c (delayOrRevoke rev delay csv) (witRevoke (.sig k' ht o)) = false := by
   simp [run, delayOrRevoke, witRevoke, runOps, step, exec, skip, opIfE, opElseE, opEndIfE,
     opCheckSig, ifArg, pk, n, sigCheck, accepts, h]
 
 /-- in particular the single-tweaked key of the same base point does not work. -/
 theorem single_tweak_does_not_revoke (c : Ctx) (v csv : Nat) (delay : Key) :
     run c (delayOrRevoke (.double v roleRev) delay csv)
-      (witRevoke (.sig (.single v roleRev) 1 true)) = false :=
+      (witRevoke (.sig (.single v roleRev) sigHashAll .final)) = false :=
   revoke_needs_revocation_key c _ _ _ _ _ _ (by simp)
 
 /-- **revoke_path_exclusive**: the only witnesses the to-local / second-level
@@ -174,27 +195,27 @@ theorem single_tweak_does_not_revoke (c : Ctx) (v csv : Nat) (delay : Key) :
     satisfied, `<sig by the delay key> <>`. -/
 theorem revoke_path_exclusive (c : Ctx) (rev delay : Key) (csv : Nat) (w : List Item)
     (h : run c (delayOrRevoke rev delay csv) w = true) :
-    (∃ ht, w = [.sig rev ht true, .num 1]) ∨
-    (∃ ht, w = [.sig delay ht true, .num 0] ∧ csvOk c csv = true) := by
+    (∃ ht o, w = [.sig rev ht o, .num 1] ∧ sigOk c ht o = true) ∨
+    (∃ ht o, w = [.sig delay ht o, .num 0] ∧ sigOk c ht o = true ∧ csvOk c csv = true) := by
   unfold run at h
-  rcases excl_stack c rev delay csv w.reverse h with ⟨ht, e⟩ | ⟨ht, e, hc⟩
-  · left; refine ⟨ht, ?_⟩
+  rcases excl_stack c rev delay csv w.reverse h with ⟨ht, o, e, hok⟩ | ⟨ht, o, e, hok, hc⟩
+  · left; refine ⟨ht, o, ?_, hok⟩
     have := congrArg List.reverse e
     simpa using this
-  · right; refine ⟨ht, ?_, hc⟩
+  · right; refine ⟨ht, o, ?_, hok, hc⟩
     have := congrArg List.reverse e
     simpa using this
 
 /-- Consequently: a witness that contains no signature by the revocation key
     can only pass through the delayed branch, i.e. not before the CSV delay. -/
 theorem no_revocation_sig_no_early_spend (c : Ctx) (rev delay : Key) (csv : Nat) (w : List Item)
-    (hno : ∀ ht, Item.sig rev ht true ∉ w) (hcsv : csvOk c csv = false) :
+    (hno : ∀ ht o, Item.sig rev ht o ∉ w) (hcsv : csvOk c csv = false) :
     run c (delayOrRevoke rev delay csv) w = false := by
   cases hr : run c (delayOrRevoke rev delay csv) w with
   | false => rfl
   | true =>
-    rcases revoke_path_exclusive c rev delay csv w hr with ⟨ht, e⟩ | ⟨ht, _, hc⟩
-    · exact absurd (by rw [e]; simp) (hno ht)
+    rcases revoke_path_exclusive c rev delay csv w hr with ⟨ht, o, e, _⟩ | ⟨ht, o, _, _, hc⟩
+    · exact absurd (by rw [e]; simp) (hno ht o)
     · rw [hcsv] at hc; cases hc
 
 /-- Non-vacuity: a concrete anchors channel, received HTLC. -/
